@@ -201,7 +201,9 @@ def run_case(case, obs):
     ids, A, L, angles, names = oracles.dense_rows(d["network"])
     # the simulator's rows are in registration order == descriptor order (build_network)
     if list(sim.network.station_ids) != ids:
-        obs.violate("station_order", f"station_ids {sim.network.station_ids} != registration order {ids}", scenario=d)
+        # the row order of the recorded matrices is the network's business (C12): the oracle below is written for registration
+        # order, so such a run is not judged here
+        obs.ev("runs_whose_station_order_differs_from_registration_order_not_judged")
         return
     V = [s["voltage"] for s in d["network"]["stations"]]
     R = np.array(sim.charging_rates, dtype=float)
@@ -285,19 +287,25 @@ def run_case(case, obs):
             with np.errstate(all="ignore"):
                 mean = mags.mean(axis=0)
                 exp = (mags.max(axis=0) - mean) / mean
+            # where the three magnitudes are nothing but rounding residue of currents that cancel (mean below 1e-9 of what the
+            # stations carry), the ratio is noise in any implementation: those periods are not compared
+            carried = np.array([max(math.fsum(abs(A[names.index(p)][i]) * abs(R[i][t]) for i in range(n)) for p in ph) for t in range(T)])
+            noise = (mean > 0) & (mean < 1e-9 * carried)
             try:
                 how = rng.random()
                 if how < 0.6:
                     got = acnsim.current_unbalance(sim, ph)
-                elif how < 0.75:
-                    got = acnsim.current_unbalance(sim, tuple(ph), unbalance_type="NEMA")
-                elif how < 0.9:
+                elif how < 0.8:
+                    got = acnsim.current_unbalance(sim, list(ph), unbalance_type="NEMA")
+                else:
                     import warnings as _w
                     with _w.catch_warnings():
                         _w.simplefilter("ignore")
                         got = acnsim.current_unbalance(sim, ph, type="NEMA")  # deprecated spelling of the same argument
-                else:
-                    got = acnsim.current_unbalance(sim, np.array(ph))
+                if noise.any():
+                    obs.ev("q:unbalance_periods_of_pure_rounding_residue_skipped", int(noise.sum()))
+                    got = np.where(noise, 0.0, np.asarray(got, dtype=float)) if np.shape(got) == np.shape(exp) else got
+                    exp = np.where(noise, 0.0, exp)
                 judge("unbalance", got, exp, phases=ph)
                 if np.any(np.isnan(exp)):
                     obs.ev("q:unbalance_nan_positions")
@@ -380,13 +388,14 @@ def run_case(case, obs):
             pr_ = [o_exp.lookup(start + timedelta(minutes=period) * k)[0] for k in range(T)]
             exp_cost = math.fsum(p_ * w_ for p_, w_ in zip(pr_, pw_)) * (period / 60.0)
             exp_dc = o_exp.lookup(start)[1] * max(pw_)
+            dc_rates_ = {o_exp.lookup(start + timedelta(minutes=period) * k)[1] for k in range(T)}  # (C17: which instant's rate bills the peak)
             got_c, got_d = acnsim.energy_cost(sim, tariff=t_exp), acnsim.demand_charge(sim, tariff=t_exp)
             obs.evals += 1
             obs.ev("q:cost_under_an_explicit_tariff_other_than_the_simulations_own")
             if not abs(got_c - exp_cost) <= 1e-9 * max(1.0, abs(exp_cost)):
                 obs.violate("analysis:energy_cost", f"energy_cost(sim, tariff={names_[1]}) = {got_c!r}, sum(price x power x dt) = {exp_cost!r} "
                             f"(the simulation's own signals carry {names_[0]})", **wit)
-            if not abs(got_d - exp_dc) <= 1e-9 * max(1.0, abs(exp_dc)):
+            if not any(abs(got_d - r_ * max(pw_)) <= 1e-9 * max(1.0, abs(r_ * max(pw_))) for r_ in dc_rates_):
                 obs.violate("analysis:demand_charge", f"demand_charge(sim, tariff={names_[1]}) = {got_d!r}, expected {exp_dc!r}", **wit)
         except LookupError:
             pass
